@@ -445,6 +445,28 @@ def getkeyword_amp(rf, sf):
     return amp
 
 
+def recovery_scan(ai):
+    """the `);` recovery scan at the end of SDAI_Application_instance::STEPread: (stays in the record, puts the `;` back).
+    Two shapes are modelled (`recOuter stay pb`): the plain scan for `)` ws `;`, and the one that also ends at a semicolon
+    outside a string literal."""
+    b = _ws(_strip(_body(ai, r"Severity\s+SDAI_Application_instance::STEPread\s*\(", "SDAI_Application_instance::STEPread")))
+    m = re.search(r"in\.clear\(\);intfoundEnd=0;std::stringtmp;tmp=\"\";(.*?)_error\.AppendToDetailMsg\(tmp\.c_str\(\)\);", b)
+    if not m:
+        raise ValueError("SDAI_Application_instance::STEPread: the recovery scan (in.clear(); int foundEnd = 0; … AppendToDetailMsg( tmp )) was not found")
+    scan = m.group(1)
+    plain = re.fullmatch(r"while\(in\.good\(\)&&!foundEnd\)\{while\(in\.good\(\)&&\(c!='\)'\)\)\{in\.get\(c\);tmp\+=c;\}"
+                         r"if\(in\.good\(\)&&\(c=='\)'\)\)\{in>>ws;in\.get\(c\);tmp\+=c;if\(c==';'\)\{(in\.putback\(c\);)?foundEnd=1;\}\}\}", scan)
+    if plain:
+        return False, bool(plain.group(1))
+    stay = re.fullmatch(r"boolinString=false;while\(in\.good\(\)&&!foundEnd\)\{while\(in\.good\(\)&&\(c!='\)'\)&&!foundEnd\)\{in\.get\(c\);tmp\+=c;"
+                        r"if\(in\.good\(\)\)\{if\(c=='\\''\)\{inString=!inString;\}elseif\(c==';'&&!inString\)\{in\.putback\(c\);foundEnd=1;\}\}\}"
+                        r"if\(!foundEnd&&in\.good\(\)&&\(c=='\)'\)\)\{in>>ws;in\.get\(c\);tmp\+=c;if\(c==';'\)\{in\.putback\(c\);foundEnd=1;\}"
+                        r"elseif\(in\.good\(\)&&c=='\\''\)\{inString=!inString;\}\}\}", scan)
+    if stay:
+        return True, True
+    raise ValueError("SDAI_Application_instance::STEPread: the recovery scan is neither of the two modelled shapes")
+
+
 def skip_comments(rf):
     """does SkipInstance have the `case '/':` that steps over a comment (peek '*', putback, ReadComment; else keep the '/')?"""
     b = _ws(_strip(_body(rf, r"Severity\s+SkipInstance\s*\(", "SkipInstance")))
@@ -681,6 +703,7 @@ def extract(repo):
     nms_exact = nms_copy_exact(sc)
     skipcm = skip_comments(rf)
     gk_amp = getkeyword_amp(rf, sf)
+    rs_stay, rs_pb = recovery_scan(rd("src/clstepcore/sdaiApplication_instance.cc"))
     ad = [aggr_deletes(rd(f), sig, w) for f, sig, w in [
         ("src/clstepcore/STEPaggregate.cc", r"Severity\s+STEPaggregate::ReadValue\s*\(", "STEPaggregate::ReadValue"),
         ("src/clstepcore/STEPaggrEntity.cc", r"Severity\s+EntityAggregate::ReadValue\s*\(", "EntityAggregate::ReadValue"),
@@ -758,6 +781,11 @@ def selectAggrDeletes : DelCfg := {ad[2]}
 /-- `GetKeyword` accepts `&` as a keyword character (false: `&SCOPE` is never recognised, CreateScopeInstances always takes
 its first error exit, CreateInstance returns ENTITY_NULL) -/
 def getKeywordAcceptsAmp : Bool := {b(gk_amp)}
+
+/-- the `);` recovery scan of `SDAI_Application_instance::STEPread`: it also ends at a semicolon outside a string literal
+(the end of the record); it puts the `;` it found back -/
+def recoveryScanStaysInRecord : Bool := {b(rs_stay)}
+def recoveryScanPutsBackSemi : Bool := {b(rs_pb)}
 
 /-- `SkipInstance` has the `case '/':` that steps over a comment -/
 def skipInstanceSkipsComments : Bool := {b(skipcm)}
